@@ -87,6 +87,7 @@ class Sched:
         self.line_yields = 0
         self.line_stalls = 0
         self.stall_p = 0.0
+        self.feed_p = 0.0  # probability that a Queue.put stays in the producer's feeder for a few steps
         self._main_woken = False
         self.personality = personality
         self.tasks = []
@@ -101,6 +102,7 @@ class Sched:
         self.abort = None
         self.hang = None
         self.queues = {}
+        self.fcount = {}
         self.next_pid = 1
         self.victim = None  # personality target
         self.rr = 0
@@ -188,8 +190,35 @@ class Sched:
             self.ldecisions[key] = d
         return d
 
+    def fdecide(self, me):
+        """Feeder lag of this put: 0 = the object is in the pipe when put() returns, n > 0 =
+        it becomes visible to consumers (get, empty, qsize) n scheduler steps later. Real
+        multiprocessing.Queue.put only hands the object to a feeder thread."""
+        name = me.name if me is not None else "main"
+        k = self.fcount.get(name, 0)
+        self.fcount[name] = k + 1
+        key = f"{name}:put{k}"
+        if self.lreplay is not None:
+            d = self.lreplay.get(key, 0)
+        else:
+            d = 0
+            if self.feed_p and self.rng.random() < self.feed_p:
+                d = self.rng.choice((1, 2, 3, 5, 9, 20))
+        if d:
+            self.ldecisions[key] = d
+            self.stats["puts_lagging_in_feeder"] = self.stats.get("puts_lagging_in_feeder", 0) + 1
+        return d
+
+    def _feed(self, force=False):
+        moved = False
+        for q in self.queues.values():
+            if q.inflight:
+                moved = q._flush(self.steps, force) or moved
+        return moved
+
     # -- dispatch -------------------------------------------------------------------
     def _runnable(self):
+        self._feed()
         out = []
         for t in self.tasks:
             if t.state == "runnable":
@@ -208,6 +237,8 @@ class Sched:
             r = self._runnable()
             if r:
                 return self.pick(r)
+            if self._feed(force=True):
+                continue  # nothing can run until a feeder has written its object: it does
             sleepers = [t for t in self.tasks if t.state == "sleeping" or (t.state == "blocked" and t.wake is not None)]
             if not sleepers:
                 return None
@@ -399,6 +430,7 @@ class SimQueue:
         self.closed_in = set()
         self.max_depth = 0
         self.unfinished = 0
+        self.inflight = []  # [release_step, pid, data]: handed to put(), not yet in the pipe
 
     def __reduce__(self):
         return (_lookup_queue, (self.qid,))
@@ -413,7 +445,7 @@ class SimQueue:
         data = pickle.dumps(obj)
         if self.maxsize > 0 and len(self.items) >= self.maxsize:
             self.s.stats["queue_full_blocks"] += 1
-        room = (lambda: len(self.items) < self.maxsize) if self.maxsize > 0 else None
+        room = (lambda: len(self.items) + len(self.inflight) < self.maxsize) if self.maxsize > 0 else None
         if room is not None and not block:
             if not room():
                 raise _queue.Full()
@@ -423,9 +455,17 @@ class SimQueue:
                          deadline=None if (timeout is None or room is None) else self.s.now + max(0.0, float(timeout)))
             if room is not None and not room():
                 raise _queue.Full()
-        self.items.append(data)
         self.unfinished += 1
-        self.max_depth = max(self.max_depth, len(self.items))
+        pid = self._pid()
+        d = self.s.fdecide(self.s.me())
+        mine = [f for f in self.inflight if f[1] == pid]
+        if d or mine:
+            # FIFO per producer: behind whatever this process still has in its feeder
+            rel = max([self.s.steps + d] + [f[0] for f in mine])
+            self.inflight.append([rel, pid, data])
+        else:
+            self.items.append(data)
+        self.max_depth = max(self.max_depth, len(self.items) + len(self.inflight))
 
     def get(self, block=True, timeout=None):
         if self._pid() in self.closed_in:
@@ -458,23 +498,49 @@ class SimQueue:
                     raise _Die(run.get("death_code", 7))
         return obj
 
+    def _flush(self, step, force=False, pid=None, lose=False):
+        """Move objects whose feeder has caught up into the pipe, in put order. pid: everything
+        that process still holds (its feeder is joined; lose=True: the process was killed and
+        the objects are gone). force: the oldest object regardless of its release step."""
+        moved = False
+        keep = []
+        for f in self.inflight:
+            if pid is not None:
+                due = f[1] == pid
+            else:
+                due = f[0] <= step or (force and not moved)
+            if not due:
+                keep.append(f)
+                continue
+            moved = True
+            if lose:
+                self.unfinished -= 1
+            else:
+                self.items.append(f[2])
+        self.inflight = keep
+        return moved
+
     def close(self):
         self.closed_in.add(self._pid())
         self.s.point(f"close:q{self.qid}")
 
     def join_thread(self):
-        pass
+        # blocks until this process's feeder has written everything it was given
+        self._flush(self.s.steps, pid=self._pid())
+        self.s.point(f"join_thread:q{self.qid}")
 
     def cancel_join_thread(self):
         pass
 
     def empty(self):
+        self._flush(self.s.steps)
         return not self.items
 
     def full(self):
-        return self.maxsize > 0 and len(self.items) >= self.maxsize
+        return self.maxsize > 0 and len(self.items) + len(self.inflight) >= self.maxsize
 
     def qsize(self):
+        self._flush(self.s.steps)
         return len(self.items)
 
     def get_nowait(self):
@@ -557,6 +623,11 @@ class SimProcess:
                     pass
                 e.__traceback__ = None
             target = args = kwargs = None
+            # a process that exits normally joins its feeder threads first; one that is killed or
+            # dies takes what its feeders still held with it
+            for q in s.queues.values():
+                if q.inflight:
+                    q._flush(s.steps, pid=t.pid, lose=code not in (0, 1))
             t.exitcode = code
             try:
                 s.finish(t)
@@ -929,6 +1000,7 @@ def simulate(desc, rng=None):
               line_decisions=desc.get("line_decisions"))
     s.base_seed = desc.get("seed", 0)
     s.stall_p = desc.get("stall_p", 0.0)
+    s.feed_p = desc.get("feed_p", 0.0)
     s.victim = desc.get("victim")
     _SCHED = s
     gc.collect()  # leftovers of earlier runs in this process are finalised outside the simulation
